@@ -91,8 +91,7 @@ func (e *Encoder) Encode(object interface{}) ([]byte, error) {
 //WriteData write object
 func (e *Encoder) WriteData(data interface{}) (int, error) {
 	if data == nil {
-		e.writeBT(_nilTag)
-		return 1, nil
+		return e.writeBT(_nilTag)
 	}
 	source := data
 	v := reflect.ValueOf(data)
@@ -101,8 +100,7 @@ func (e *Encoder) WriteData(data interface{}) (int, error) {
 		v = UnpackPtr(v)
 
 		if !v.IsValid() {
-			e.writeBT(_nilTag)
-			return 1, nil
+			return e.writeBT(_nilTag)
 		}
 
 		data = v.Interface()
@@ -164,16 +162,25 @@ func (e *Encoder) WriteData(data interface{}) (int, error) {
 	return 0, newCodecError("WriteData", "unsupported object:%v, kind:%v, type:%v", data, v.Kind(), v.Kind())
 }
 
+// write sends all of bs to the destination writer; a short count is an error
+func (e *Encoder) write(bs []byte) (int, error) {
+	n, err := e.writer.Write(bs)
+	if err == nil && n < len(bs) {
+		err = io.ErrShortWrite
+	}
+	return n, err
+}
+
 func (e *Encoder) writeString(value string) (int, error) {
-	return e.writer.Write(encodeString(value))
+	return e.write(encodeString(value))
 }
 
 func (e *Encoder) writeInt(value int32) (int, error) {
-	return e.writer.Write(encodeInt(value))
+	return e.write(encodeInt(value))
 }
 
 func (e *Encoder) writeLong(value int64) (int, error) {
-	return e.writer.Write(encodeLong(value))
+	return e.write(encodeLong(value))
 }
 
 func (e *Encoder) writeDouble(value float64) (int, error) {
@@ -181,21 +188,21 @@ func (e *Encoder) writeDouble(value float64) (int, error) {
 	if err != nil {
 		return 0, err
 	}
-	return e.writer.Write(bytes)
+	return e.write(bytes)
 }
 
 func (e *Encoder) writeBoolean(value bool) (int, error) {
-	return e.writer.Write(encodeBoolean(value))
+	return e.write(encodeBoolean(value))
 }
 
 func (e *Encoder) writeBinary(value []byte) (int, error) {
-	return e.writer.Write(encodeBinary(value))
+	return e.write(encodeBinary(value))
 }
 
 func (e *Encoder) writeBT(bs ...byte) (int, error) {
-	return e.writer.Write(bs)
+	return e.write(bs)
 }
 
 func (e *Encoder) writeBytes(bytes []byte) (int, error) {
-	return e.writer.Write(bytes)
+	return e.write(bytes)
 }
